@@ -12,7 +12,7 @@ Extraction "../driver/model.ml"
   Formats.p_write_event Formats.e_write_event Formats.p_account_event Formats.e_account_event
   Formats.p_file_event Formats.e_file_event Formats.p_record Formats.e_record
   Formats.p_cproof Formats.e_cproof Formats.p_cstate Formats.e_cstate
-  Formats.p_comparison Formats.e_comparison Formats.decode_top
+  Formats.p_comparison Formats.e_comparison Formats.decode_top Formats.tagset_reencode
   EventLog.log_apply EventLog.log_reopen EventLog.log_clear EventLog.log_rewind
   EventLog.log_patch_checked EventLog.log_replace_all EventLog.rewind_and_patch EventLog.proof_eqb
   MergePatches.merge_patches
